@@ -22,44 +22,34 @@ structure BfsState where
 
 def assocHas (m : List (String × Option String)) (k : String) : Bool := m.any (·.1 == k)
 
+/-- neighbours `ws` of the fringe node `v`: enter the unseen ones (with `v` as their parent), stop at the
+    first one the other side knows (the inner loop of `_bidirectional_pred_succ`) -/
+def expandW (other : List (String × Option String)) (v : String) :
+    List String → List (String × Option String) → List String →
+      List (String × Option String) × List String × Option String
+  | [], own, fr => (own, fr, none)
+  | w :: ws, own, fr =>
+    let (own, fr) := if !assocHas own w then (own ++ [(w, some v)], fr ++ [w]) else (own, fr)
+    if assocHas other w then (own, fr, some w) else expandW other v ws own fr
+
+/-- the fringe nodes `vs` in order -/
+def expandV (nb : String → List String) (other : List (String × Option String)) :
+    List String → List (String × Option String) → List String →
+      List (String × Option String) × List String × Option String
+  | [], own, fr => (own, fr, none)
+  | v :: vs, own, fr =>
+    match expandW other v (nb v) own fr with
+    | (own, fr, some w) => (own, fr, some w)
+    | (own, fr, none) => expandV nb other vs own fr
+
 /-- one forward level: returns (state, meeting node) -/
 def fwdLevel (g : Graph) (st : BfsState) : BfsState × Option String :=
-  let rec goV (vs : List String) (pred : List (String × Option String)) (fr : List String) :
-      List (String × Option String) × List String × Option String :=
-    match vs with
-    | [] => (pred, fr, none)
-    | v :: vs' =>
-      let rec goW (ws : List String) (pred : List (String × Option String)) (fr : List String) :
-          List (String × Option String) × List String × Option String :=
-        match ws with
-        | [] => (pred, fr, none)
-        | w :: ws' =>
-          let (pred, fr) := if !assocHas pred w then (pred ++ [(w, some v)], fr ++ [w]) else (pred, fr)
-          if assocHas st.succ w then (pred, fr, some w) else goW ws' pred fr
-      match goW (g.succs v) pred fr with
-      | (pred, fr, some w) => (pred, fr, some w)
-      | (pred, fr, none) => goV vs' pred fr
-  let (pred, fr, hit) := goV st.fwd st.pred []
-  ({ st with pred := pred, fwd := fr }, hit)
+  match expandV g.succs st.succ st.fwd st.pred [] with
+  | (pred, fr, hit) => ({ st with pred := pred, fwd := fr }, hit)
 
 def revLevel (g : Graph) (st : BfsState) : BfsState × Option String :=
-  let rec goV (vs : List String) (succ : List (String × Option String)) (fr : List String) :
-      List (String × Option String) × List String × Option String :=
-    match vs with
-    | [] => (succ, fr, none)
-    | v :: vs' =>
-      let rec goW (ws : List String) (succ : List (String × Option String)) (fr : List String) :
-          List (String × Option String) × List String × Option String :=
-        match ws with
-        | [] => (succ, fr, none)
-        | w :: ws' =>
-          let (succ, fr) := if !assocHas succ w then (succ ++ [(w, some v)], fr ++ [w]) else (succ, fr)
-          if assocHas st.pred w then (succ, fr, some w) else goW ws' succ fr
-      match goW (g.preds v) succ fr with
-      | (succ, fr, some w) => (succ, fr, some w)
-      | (succ, fr, none) => goV vs' succ fr
-  let (succ, fr, hit) := goV st.rev st.succ []
-  ({ st with succ := succ, rev := fr }, hit)
+  match expandV g.preds st.pred st.rev st.succ [] with
+  | (succ, fr, hit) => ({ st with succ := succ, rev := fr }, hit)
 
 def bfsLoop (g : Graph) : Nat → BfsState → Option (BfsState × String)
   | 0, _ => none
